@@ -458,6 +458,8 @@ class System:
                     systems.append(UnitSystem(f"chk{w.n}_{i}", "km", "g", "s", registry=others[0]))
                 except Exception:  # noqa: BLE001
                     pass
+            if any(c12.resolve_real(r, n)[0] != "ok" for n in ("cm", "km", "g", "kg")):
+                systems = []  # the history re-defined the metre / gram as non-prefixable here: cgs and mks cannot be spelled in this registry
             for us in systems:
                 try:
                     z = arr(r, "foo/s").in_base(us)
